@@ -174,7 +174,8 @@ def mask_cases(draw):
     proj = draw(st.one_of(st.none(), st.tuples(st.sampled_from([1.0, 2.0, 0.5, 10.0]), st.sampled_from([1.0, 3.0, 0.25])),
                           st.sampled_from([(0.8, -0.6, 0.6, 0.8), (1.0, 0.7, 0.0, 1.0), (0.5, 2.0, -1.5, 0.25)])))
     proj = None if proj is None else list(proj)
-    case = dict(mode=mode, data=pts, form=form, proj=proj, dshape=draw(st.sampled_from(blocks.shape_options(len(pts)))), orders=draw(build.orders_strategy()))
+    case = dict(mode=mode, data=pts, form=form, proj=proj, dshape=draw(st.sampled_from(blocks.shape_options(len(pts)))), orders=draw(build.orders_strategy()),
+                extra=draw(st.sampled_from([0, 0, 1, 2])), qextra=draw(st.sampled_from([0, 0, 1])))
     if form == "array":
         qs = draw(queries(mode, pts))
         case["query"] = qs
@@ -199,14 +200,15 @@ def check_mask(case, ctx):
     d = np.array(case["data"])
     dshape = case["dshape"]
     lay = build.Lay(case.get("orders"))
-    dcoords = (lay(d[:, 0], dshape), lay(d[:, 1], dshape))
+    # further coordinates (heights ...) after easting and northing are documented as ignored
+    dcoords = (lay(d[:, 0], dshape), lay(d[:, 1], dshape)) + tuple(lay(1e3 + 7.0 * np.arange(d.shape[0]) * (j + 1), dshape) for j in range(case.get("extra", 0)))
     proj = proj_from(case["proj"])
     kw = {} if proj is None else dict(projection=proj)
     maxdist = case["maxdist"]
     if case["form"] == "array":
         q = np.array(case["query"])
         qshape = case["qshape"]
-        qcoords = (lay(q[:, 0], qshape), lay(q[:, 1], qshape))
+        qcoords = (lay(q[:, 0], qshape), lay(q[:, 1], qshape)) + tuple(lay(-5e2 + 3.0 * np.arange(q.shape[0]), qshape) for _ in range(case.get("qextra", 0)))
         mask = np.asarray(vd.distance_mask(dcoords, maxdist, coordinates=qcoords, **kw))
         ctx.check(mask.shape == tuple(qshape) and mask.dtype == bool, "mask must be boolean with the query's shape, got %s %s", mask.dtype, mask.shape)
     else:
